@@ -458,6 +458,10 @@ def api(draw, hostile=True, annotate=True, max_callables=6, with_gobject=True):
         # functions that pair with an enumeration as its static functions (declared in non-sorted order)
         decls.append({'d': 'function', 'name': 'foo_kind_to_string', 'ret': B('char', 1, True), 'params': [param('kind', T('FooKind'))]})
         decls.append({'d': 'function', 'name': 'foo_kind_from_string', 'ret': T('FooKind'), 'params': [param('s', B('char', 1, True))]})
+    if with_gobject and draw(st.booleans()):
+        # static functions of the class, declared in non-sorted order (the writer sorts them by name)
+        decls.append({'d': 'function', 'name': 'foo_obj_zeta_count', 'ret': B('int'), 'params': []})
+        decls.append({'d': 'function', 'name': 'foo_obj_alpha_reset', 'ret': VOID, 'params': [param('level', B('int'))]})
     if annotate:
         comments.append(['/**\n * FooForeign: (foreign)\n *\n * Managed elsewhere.\n */', '/src/foo.c', 1100])
     if annotate and draw(st.booleans()):
